@@ -16,7 +16,7 @@ use rspack_sources::{
 };
 use serde::{Deserialize, Serialize};
 
-use crate::sched::user_point;
+use crate::sched::{fault_point, user_point};
 
 #[derive(Clone, Debug, Serialize, Deserialize, PartialEq, Eq, Hash)]
 pub enum Enforce {
@@ -232,19 +232,24 @@ pub struct UserSrc {
 
 impl Source for UserSrc {
   fn source(&self) -> Cow<str> {
+    fault_point();
     self.inner.source()
   }
   fn rope(&self) -> Rope<'_> {
+    fault_point();
     self.inner.rope()
   }
   fn buffer(&self) -> Cow<[u8]> {
+    fault_point();
     self.inner.buffer()
   }
   fn size(&self) -> usize {
+    fault_point();
     self.inner.size() + if self.id & ESTIMATE_BIT != 0 { 17 } else { 0 }
   }
   fn map(&self, options: &MapOptions) -> Option<SourceMap> {
     user_point("user.map.enter");
+    fault_point();
     let m = if self.id & PERMUTE_BIT != 0 {
       // consistent with its own (renumbered) stream
       let mut sources: Vec<String> = vec![];
@@ -277,9 +282,11 @@ impl Source for UserSrc {
       self.inner.map(options)
     };
     user_point("user.map.exit");
+    fault_point();
     m
   }
   fn to_writer(&self, writer: &mut dyn std::io::Write) -> std::io::Result<()> {
+    fault_point();
     self.inner.to_writer(writer)
   }
 }
@@ -293,6 +300,7 @@ impl StreamChunks for UserSrc {
     on_name: OnName<'_, 'a>,
   ) -> GeneratedInfo {
     user_point("user.stream.enter");
+    fault_point();
     // ids with this bit set renumber their sources and names (i -> i ^ 1): a
     // user-defined source may number and announce them in any order, e.g.
     // index 1 before index 0, or leave index 0 unused
@@ -302,6 +310,7 @@ impl StreamChunks for UserSrc {
         options,
         &mut |chunk, mut mapping| {
           user_point("user.stream.chunk");
+          fault_point();
           if let Some(o) = mapping.original.as_mut() {
             o.source_index ^= 1;
             if let Some(n) = o.name_index.as_mut() {
@@ -318,6 +327,7 @@ impl StreamChunks for UserSrc {
         options,
         &mut |chunk, mapping| {
           user_point("user.stream.chunk");
+          fault_point();
           on_chunk(chunk, mapping)
         },
         on_source,
@@ -325,12 +335,14 @@ impl StreamChunks for UserSrc {
       )
     };
     user_point("user.stream.exit");
+    fault_point();
     info
   }
 }
 
 impl Hash for UserSrc {
   fn hash<H: Hasher>(&self, state: &mut H) {
+    fault_point();
     "UserSrc".hash(state);
     self.id.hash(state);
     self.inner.hash(state);
@@ -708,6 +720,24 @@ pub enum OpKind {
   /// not judged (Debug output may legitimately show cache state), only what
   /// it leaves behind.
   DebugFmt { limit: Option<u32> },
+  /// Collaborator failure: run `then` with a one-shot fault armed — the
+  /// `at`-th fault point reached on this thread during the call (a method of a
+  /// user-defined child source: source / rope / buffer / size / map / to_writer
+  /// / stream entry, chunk, exit / hash; or one of the consumer's own
+  /// `on_chunk` / `on_source` / `on_name` callbacks) unwinds. If the call does
+  /// not reach that many points it completes and is judged like `then`. A
+  /// fired fault is a fault, not an answer: only what it leaves behind counts.
+  ChildFault { at: u32, then: Box<OpKind> },
+}
+
+impl OpKind {
+  /// The op without an armed collaborator fault.
+  pub fn without_fault(&self) -> &OpKind {
+    match self {
+      OpKind::ChildFault { then, .. } => then.without_fault(),
+      k => k,
+    }
+  }
 }
 
 #[derive(Clone, Debug, Serialize, Deserialize, PartialEq, Eq, Hash)]
@@ -737,6 +767,7 @@ impl OpKind {
       OpKind::Lookup { .. } => "lookup".into(),
       OpKind::CloneEditObserve { then, .. } => format!("clone>edit>{}", then.label()),
       OpKind::DebugFmt { limit } => format!("debug_fmt({:?})", limit),
+      OpKind::ChildFault { at, then } => format!("child_fault@{}>{}", at, then.label()),
     }
   }
   pub fn class(&self) -> &'static str {
@@ -755,6 +786,7 @@ impl OpKind {
       OpKind::Lookup { .. } => "lookup",
       OpKind::CloneEditObserve { .. } => "clone_edit",
       OpKind::DebugFmt { .. } => "debug",
+      OpKind::ChildFault { then, .. } => then.class(),
     }
   }
 }
